@@ -27,6 +27,12 @@ def _gen_setup(interp, path):
         "_apex": NTuple("Pos", ("n", "x", "y"), [z3.Int(fresh_name("apex." + f)) for f in "nxy"]),
         "_tile_filter": None,
         "_coordsys": None})
+    if case.get("toast"):
+        from pyvc.values import EnumVal
+        me.fields["_coordsys"] = EnumVal("ToastCoordinateSystem", "PLANETARY", "planetary")
+        if case["filtered"]:
+            me.fields["_tile_filter"] = Opaque("tile_filter", "tile_filter")
+        return {"self": me}
     if case["sub"]:
         path.assume(me.fields["_apex"].get("n") >= 1)
     else:
@@ -48,6 +54,8 @@ def _seq_hook(m, path, fr, env, outcome, value, exc):
     instantiated by their triggers.  All clauses are over the opaque ``desc`` of the Desc theory, like generate_pos's."""
     if outcome != "return":
         return
+    if m._case.get("toast"):
+        return _toast_hook(m, path, fr, env, outcome, value, exc)
     from pyvc.core import z3num
     from pyvc.types import fresh_of_type
     from .specfuns import Desc
@@ -108,19 +116,63 @@ def _seq_hook(m, path, fr, env, outcome, value, exc):
     obl("root_last", z3.And(n_total >= 1, last[0] == 0, last[1] == 0, last[2] == 0), [LE.anc_valid_fact(a, z3.IntVal(0))])
 
 
+def _toast_hook(m, path, fr, env, outcome, value, exc):
+    """TOAST pyramids: the enumeration is toast.generate_tiles / generate_tiles_filtered for THIS pyramid's depth,
+    coordinate system and filter, with all levels (bottom_only=False), each tile paired with its own position, followed
+    by the level-0 position without a tile."""
+    case = m._case
+    me = fr.entry_env.lookup("self")
+    calls = [e for e in path.events if e[0] == "call" and e[1].endswith("toast.generate_tiles_filtered")]
+    name = m.oblname("toast_enumeration_of_this_pyramid_then_the_root")
+    ok = len(calls) == 1
+    all_acc = z3.BoolVal(True)
+    if ok:
+        a = calls[0][2]
+        from pyvc.values import EnumVal
+        ok = (a.get("bottom_only") is False and isinstance(a.get("coordsys"), EnumVal) and a["coordsys"].name == "PLANETARY")
+        if case["filtered"]:
+            ok = ok and isinstance(a.get("filter"), Opaque) and a["filter"].name == "tile_filter"
+        else:
+            # unfiltered pyramids enumerate every tile: the filter handed down accepts an arbitrary position
+            from .toastgen import accepts
+            q = NTuple("Pos", ("n", "x", "y"), [z3.Int(fresh_name("q." + f)) for f in "nxy"])
+            acc = accepts(m, a.get("filter"), q)
+            all_acc = z3.BoolVal(acc) if isinstance(acc, bool) else acc
+    segs = fr.ytrace.segs
+    ok = ok and len(segs) == 2 and segs[0][0] == "seq" and getattr(segs[0][1], "source", None) is not None and segs[1][0] == "item"
+    if not ok:
+        path.oblige(name, z3.BoolVal(False), kind="trace", assume_after=False)
+        return
+    from pyvc.core import z3num
+    depth_ok = z3num(calls[0][2].get("depth")) == z3num(me.fields["depth"])
+    k = z3.Int(fresh_name("k"))
+    item = segs[0][1].at(k)
+    src = segs[0][1].source.at(k)
+    pair_ok = (isinstance(item, tuple) and len(item) == 2 and isinstance(item[1], NTuple) and item[1].tname == "Tile")
+    eqs = []
+    if pair_ok:
+        eqs = [z3num(u) == z3num(v) for u, v in zip(item[0].vals, src.get("pos").vals)]
+        eqs += [z3num(u) == z3num(v) for u, v in zip(item[1].get("pos").vals, src.get("pos").vals)]
+    last = segs[1][1]
+    last_ok = (isinstance(last, tuple) and len(last) == 2 and last[1] is None and isinstance(last[0], NTuple)
+               and [v for v in last[0].vals] == [0, 0, 0])
+    path.oblige(name, z3.And(depth_ok, all_acc, z3.BoolVal(bool(pair_ok and last_ok)), *eqs), kind="trace", assume_after=False)
+
+
 from pyvc.ops import pow2  # noqa: E402
 
 
 @contract("toasty.pyramid.Pyramid._generator")
 def _(c):
     c.post(_seq_hook)
-    c.cases({"sub": False}, {"sub": True})
+    c.cases({"sub": False}, {"sub": True}, {"toast": True, "filtered": False}, {"toast": True, "filtered": True})
     c.setup(_gen_setup)
     c.requires("self.depth >= 0 and self._apex.n <= self.depth", name="apex_within_depth")
     c.requires("valid_pos(self._apex)", name="apex_is_a_position")
     c.yields("tuple[Pos,none]")
     c.loop(0, summarise="map")
     c.loop(1, summarise="map")
+    c.loop(3, summarise="map")
     c.loop(2, yield_ghost=("_Y", "tuple[Pos,none]"),
            invariant=[
                ("level", "1 <= ipos.n and ipos.n <= self._apex.n"),
@@ -129,8 +181,8 @@ def _(c):
                ("items", "forall(lambda k: implies(0 <= k and k < len(_Y), _Y[k][0] == "
                          + ANC.format(l="self._apex.n - 1 - k") + "), trigger=lambda k: _Y[k][0].n)"),
            ], decreases="ipos.n", types={"ipos": "Pos"})
-    c.yields_seq("len(Y) == T(self.depth - self._apex.n) + self._apex.n", name="length_closed_form")
-    c.yields_seq("forall(lambda k: implies(0 <= k and k < len(Y), Y[k][1] is None))", name="no_tile_for_generic_pyramids")
+    c.yields_seq("implies(self._coordsys is None, len(Y) == T(self.depth - self._apex.n) + self._apex.n)", name="length_closed_form")
+    c.yields_seq("implies(self._coordsys is None, forall(lambda k: implies(0 <= k and k < len(Y), Y[k][1] is None)))", name="no_tile_for_generic_pyramids")
 
 
 # ---------------------------------------------------------------------------------------------------------
